@@ -349,6 +349,7 @@ def build(prop_id, gen_sections, coq_targets, need_model=True, log=print,
                         br.proof_ok = False
                         br.proof_log += out[-3000:]
                         continue
+                    key = _dep_key(v)     # coqc has just rewritten the .vo: key the cache on the new object
                     open(cache, 'w').write(key + '\n' + out)
                 out = open(cache).read()
                 answers = parse_assumptions(out)
